@@ -76,7 +76,43 @@ def case(draw):
             "angular": draw(st.sampled_from(["400", "360"])),
             "lang": draw(st.sampled_from(["en", "en", "en", "en", "cz", "fr", "ru", "zh", "hu"])),
             "enc": draw(st.sampled_from(["utf-8", "iso-8859-2", "cp-1250", "cp-1251"])),
-            "shift": shift, "mixed": bool(mixed), "extra": draw(st.sampled_from([None, None, "first", "last"]))}
+            "shift": shift, "mixed": bool(mixed), "extra": draw(st.sampled_from([None, None, "first", "last"])),
+            "reval": [draw(st.integers(0, 9999)), draw(st.integers(0, 9999))]}
+
+
+INT_FIELD_RE = re.compile(r"<(count-xyz|count-xy|count-z|distances|directions|angles|xyz-coords|h-diffs|z-angles|s-dists|vectors|"
+                          r"azimuths|equations|unknowns|degrees-of-freedom|defect|dim|band|ind)>(\d+)</\\1>")
+BIG = [2 ** 32, 2 ** 31, 2 ** 33, 3 * 2 ** 32, 2 ** 63, 2 ** 64, 10 ** 20]
+
+
+def reader_big_integer(c, xml_bytes, d, stats):
+    rv = c.get("reval")
+    if not rv:
+        return []
+    text = xml_bytes.decode("utf-8", "replace")
+    sites = list(INT_FIELD_RE.finditer(text))
+    if not sites:
+        return []
+    m = sites[rv[0] % len(sites)]
+    add = BIG[rv[1] % len(BIG)]
+    if add == 2 ** 31 and int(m.group(2)) + add <= 2 ** 31 - 1:
+        return []
+    new = str(int(m.group(2)) + add)
+    mod = text[:m.start(2)] + new + text[m.end(2):]
+    p2 = os.path.join(d, "big.xml")
+    with open(p2, "wb") as f:
+        f.write(mod.encode("utf-8"))
+    rc, out, err, crash = drv.run([build.exe("gdrv_res"), "xml", p2])
+    if crash is not None:
+        return ["reader.big_integer.crash: %s %s (<%s>%s)" % (crash["kind"], crash["frame"], m.group(1), new)]
+    try:
+        g = json.loads(out)
+    except ValueError:
+        return ["reader.big_integer.output: %s" % out[:200]]
+    stats.label("reader_big_integer")
+    if "exc" not in g:
+        return ["reader.big_integer.accepted: <%s>%s</%s> does not fit an int and the reader accepts the file" % (m.group(1), new, m.group(1))]
+    return []
 
 
 def close(a, b, rel=1e-12, ab=0.0):
@@ -178,6 +214,9 @@ def oracle(c, stats):
         if "exc" in g:
             return ["reader.exception: gama's reader refuses gama's own XML: %s" % g]
         fails += compare_reader(x, g, "reader", exact=True, stats=stats)
+        # (2b) an integer field that an int cannot hold: the reader must refuse the file, a wrapped value would be a number
+        # that the file does not contain
+        fails += reader_big_integer(c, xml_bytes, d, stats)
         # (3) HTML
         ph = os.path.join(d, "r.html")
         with open(ph, "wb") as f:
